@@ -110,6 +110,26 @@ def callers(F, target_path):
     return list(idx.get(target_path, []))
 
 
+def ctor_sites(F, target_path):
+    """[(fn, call bb, argument expressions)] of the places a constructor is used: its direct call sites, and - for a call made
+    inside a small forwarding helper (`fn mk(&self, a, b) -> T { T::new(a, self.x, b, ..) }`) - the helper's call sites with the
+    helper's parameters substituted (the helper's own body is then not a site of its own)"""
+    out = []
+    fwd = set()
+    for g in F.user_fns():
+        for bb, tgt in local_calls(F, g):
+            if tgt == target_path:
+                continue
+            inl = g.expr_call(bb)[4].get('inl')
+            if inl is not None and inl[0] == 'call' and inl[1] == target_path:
+                out.append((g, bb, inl[2]))
+                fwd.add(tgt)
+    for g, bb in callers(F, target_path):
+        if g.path not in fwd:
+            out.append((g, bb, g.expr_call(bb)[2]))
+    return out
+
+
 def must_pass(f, via_blocks, targets, start=0):
     """True iff every feasible path from `start` to any block of `targets` passes through one of
     via_blocks.  Returns (ok, offending_targets)"""
@@ -921,6 +941,9 @@ def is_param(f, e, which=None):
         owner = f.facts.owner_fn(f)
         if f.coroutine and f.parent == owner.path:
             names |= {n for n, l, t in params_of(owner)}
+    if which is None and re.match(r'arg\d+$', root) and root not in names:
+        # a parameter bound by a pattern (`|(idx, _)|`) has no name of its own
+        return 1 <= int(root[3:]) <= f.argc
     return root in names and (which is None or root in which)
 
 
